@@ -51,12 +51,12 @@ func (rn *runner) difat(target int, byWriter bool) {
 	key := map[string]string{"engine": "cfb", "kind": "difat"}
 	rep := map[string]any{"fatSectorsTarget": target, "byWriter": byWriter}
 	work := filepath.Join(rn.dir, fmt.Sprintf("difat%d.msi", target))
-	small := []WStream{{"Alpha", content(63, 1)}, {"beta2", content(5000, 2)}, {"Gamma", content(4095, 3)}}
+	small := []WStream{{Name: "Alpha", Data: content(63, 1)}, {Name: "beta2", Data: content(5000, 2)}, {Name: "Gamma", Data: content(4095, 3)}}
 	perFat := 128
 	if byWriter {
 		// total sectors = streams + tables; aim ~100 sectors short of needing one more FAT sector than (target-1)
 		fill := ((target-1)*perFat - 100 - 40 - (target - 1) - 3) * 512
-		small = append(small, WStream{"FILLER", content(fill, 0x33)})
+		small = append(small, WStream{Name: "FILLER", Data: content(fill, 0x33)})
 	}
 	if err := WriteCFB(work, 512, small, 0); err != nil {
 		panic(err)
